@@ -8,6 +8,7 @@ import PDesy.Model.Ser
 import PDesy.Model.Report
 import PDesy.Model.Backward
 import PDesy.Model.Persist
+import PDesy.Model.SubProject
 
 open PDesy
 
@@ -97,6 +98,15 @@ def fnCall (m : Model) : P (List String) := do
   | "contrib" => do
     let t ← pNat; let s ← getSt m
     pure (Wire.put (contrib m s.live t))
+  | "subcfg" => do
+    -- status time absence costLen unit remove parentUnit  (starting from work 10, unit 60, rate 1)
+    let status : Status ← Wire.get; let time ← pNat; let absence : List Nat ← Wire.get
+    let costLen ← pNat; let unit ← pRat; let remove : Bool ← Wire.get; let parentUnit ← pRat
+    let cfg0 : SubCfg := { work := 10, unit := 60, rate := 1, readFile := false, removeAbs := false }
+    let (cfg1, warned) := configureSub cfg0 { status, time, absence, costLen, unit } remove
+    let cfg2 := relateSub cfg1 parentUnit
+    pure (Wire.put cfg2.work ++ Wire.put cfg2.unit ++ Wire.put cfg2.rate ++ Wire.put cfg2.readFile ++
+          Wire.put cfg2.removeAbs ++ Wire.put warned)
   | _ => throw s!"unknown function {name}"
 
 def handle (model : Option Model) (line : String) : Option Model × String :=
